@@ -61,12 +61,12 @@ def rcell : RCell → String
   | .num d => "n" ++ hex (Csv.fmt15 d)
   | .int v => "i" ++ toString v
 
-/-- the `readAs` string: `n`, `s`, `i`; any other character except `h` is a column that is dropped -/
+/-- the `readAs` string: `n`, `s`, `i`, `h`; any other character is a column that is dropped -/
 def parseTypes (s : String) : Option (List Csv.ColType) :=
   if s = "-" then some [] else
   s.toList.mapM fun c =>
     if c = 'n' then some Csv.ColType.num else if c = 's' then some .str else if c = 'i' then some .int
-    else if c = 'h' then none else some .skip
+    else if c = 'h' then some .hex else some .skip
 
 def dumpTable (t : Csv.Table) : String :=
   s!"cols={hexList "," t.columns} rows=" ++ ";".intercalate (t.rows.map fun r => ",".intercalate (r.map rcell))
